@@ -19,6 +19,7 @@ CONSTANTS
   TBs,          \* trailing blank lines after a block scalar
   GInds,        \* indentation of the group list under `groups:`
   RSteps,       \* indentation of the rule list relative to `rules:`
+  GI0, RS0,     \* the two indentations in the base document
   MaxEdits,     \* number of edit actions applied to the base layout
   Acts,         \* enabled edit actions
   Focus,        \* field names whose scalar "scalar" edits may restyle
@@ -84,7 +85,7 @@ Rule1 == [items |-> <<ScalarItem("alert", Sc("one")), ScalarItem("expr", Sc("spa
                       MapItem("annotations", FALSE, 2, <<KV("summary", ScDef, Sc("spaces"))>>)>>]
 Rule2 == [items |-> <<ScalarItem("record", Sc("one")), ScalarItem("expr", Sc("spaces")),
                       MapItem("labels", FALSE, 2, <<KV("team", ScDef, Sc("one"))>>)>>]
-Base  == [base |-> "doc", pre |-> <<>>, gi |-> 0, rstep |-> 0, rules |-> <<Rule1, Rule2>>, wrap |-> WrNone]
+Base  == [base |-> "doc", pre |-> <<>>, gi |-> GI0, rstep |-> RS0, rules |-> <<Rule1, Rule2>>, wrap |-> WrNone]
 
 Init == lay = Base /\ n = 0
 
@@ -150,12 +151,11 @@ WrapOK(b, w) ==
        /\ w.levels[i].sibB => ~(i > 1 /\ w.levels[i - 1].step = 0)
   /\ w.embed => w.levels # <<>>
 EditWrap ==
-  \E w \in Pick(
-       { [lay.wrap EXCEPT !.levels = <<lv>> \o @] :
-           lv \in [seq : BOOLEAN, key : WrapKeys, step : {2, 4}, sibB : BOOLEAN, sibA : BOOLEAN] }
-       \cup { [lay.wrap EXCEPT !.levels = @ \o <<lv>>] :
-           lv \in [seq : BOOLEAN, key : WrapKeys, step : {0, 2, 4}, sibB : BOOLEAN, sibA : BOOLEAN] }
-       \cup { [lay.wrap EXCEPT !.embed = ~@], [lay.wrap EXCEPT !.docB = ~@], [lay.wrap EXCEPT !.docA = ~@] }) :
+  \E w \in Pick({ [lay.wrap EXCEPT !.levels = <<lv>> \o @] :
+                    lv \in [seq : BOOLEAN, key : WrapKeys, step : {2, 4}, sibB : BOOLEAN, sibA : BOOLEAN] })
+          \cup Pick({ [lay.wrap EXCEPT !.levels = @ \o <<lv>>] :
+                    lv \in [seq : BOOLEAN, key : WrapKeys, step : {0, 2, 4}, sibB : BOOLEAN, sibA : BOOLEAN] })
+          \cup { [lay.wrap EXCEPT !.embed = ~@], [lay.wrap EXCEPT !.docB = ~@], [lay.wrap EXCEPT !.docA = ~@] } :
     /\ Len(w.levels) <= 4
     /\ WrapOK(lay.base, w)
     /\ lay' = [lay EXCEPT !.wrap = w]
